@@ -76,7 +76,9 @@ def ref_qual(param, unit, mass, order):
         return 1.0 / 86400.0 if order == 1 else 1.0
     if param == "WallReactionCoeff":
         if order == 0:
-            return mass * 0.092903 / 86400.0 if trad else mass / 86400.0
+            # mass per AREA per day: the area unit is in the denominator (ft2 = FT**2 m2).  An earlier version of this table had
+            # copied the code's `mass * 0.092903` (area factor upside down, off by 116); references are now written from the dimension.
+            return mass / FT ** 2 / 86400.0 if trad else mass / 86400.0
         if order == 1:
             return FT / 86400.0 if trad else 1.0 / 86400.0
         return 1.0
@@ -244,13 +246,26 @@ def run(repo, chk):
                                    expected=repr(ref), found=repr(a.k))
                     if p in ("WallReactionCoeff",) and u in ("GPM", "LPS") and mname == "mg":
                         chk.sample({"config": cfg, "k_to_si": a.k, "k_from_si": b.k, "reference": ref})
-    # mass_units=None default path of QualParam._to_si / _from_si (the INP reader passes None before a mass unit is known)
-    for key in ("QualParam._to_si", "QualParam._from_si"):
-        try:
-            r = evaluate(fns[key], Obj("QualParam.Concentration", {}, "QualParam"), unit_obj("LPS"), mass_units=None, reaction_order=0)
-            chk.ok("R-C17-1d", "%s accepts mass_units=None" % key, loc(fns[key]), "k=%r" % r.k)
-        except Unknown as e:
-            chk.note("%s with mass_units=None is not defined (%s); callers must pass a MassUnits" % (key, e))
+    # mass_units=None: whatever the forward function accepts, its inverse must accept (sibling agreement), and be its inverse
+    n_none = 0
+    for p in qual_members:
+        for u in ("GPM", "LPS"):
+            for o in orders:
+                cfg = "QualParam.%s/%s/mass_units=None/order%d" % (p, u, o)
+                try:
+                    a = evaluate(fns["QualParam._to_si"], Obj("QualParam." + p, {}, "QualParam"), unit_obj(u), mass_units=None, reaction_order=o)
+                except (Unknown, Raised) as e:
+                    chk.note("QualParam._to_si with mass_units=None is not defined for %s (%s)" % (cfg, e))
+                    continue
+                n_none += 1
+                try:
+                    b = evaluate(fns["QualParam._from_si"], Obj("QualParam." + p, {}, "QualParam"), unit_obj(u), mass_units=None, reaction_order=o)
+                except (Unknown, Raised) as e:
+                    chk.bad("R-C17-1d", "%s: from_si accepts what to_si accepts" % cfg, loc(fns["QualParam._from_si"]),
+                            "to_si maps mass_units=None to a default unit; from_si fails on the same arguments (%s)" % e)
+                    continue
+                chk.expect(close(a.k * b.k, 1.0, 1e-9), "R-C17-1d", "%s: from_si is the inverse of to_si" % cfg, loc(fns["QualParam._from_si"]),
+                           found="k_to=%r k_from=%r" % (a.k, b.k))
     chk.extra["configurations"] = nconf
     chk.extra["exhaustive"] = True
     chk.floor("R-C17-1b", 15 * 11 * 2 + 8 * 11 * 4 * 3)
@@ -324,6 +339,12 @@ def run(repo, chk):
 
 
 WITNESSES = [
+    dict(name="wall-coefficient-area-factor-upside-down-both-directions", file=UTIL,
+         old="data = data * (mass_units.factor / 0.09290304 / 86400.0)  # M/ft2/d to SI", new="data = data * (mass_units.factor * 0.092903 / 86400.0)  # M/ft2/d to SI",
+         also=[("data = data / (mass_units.factor / 0.09290304 / 86400.0)  # M/ft2/d fr SI", "data = data / (mass_units.factor * 0.092903 / 86400.0)  # M/ft2/d fr SI")], rule="R-C17-1c"),
+    dict(name="from-si-without-the-None-default", file=UTIL,
+         old="        if mass_units is None:\n            mass_units = MassUnits.mg\n\n        # Do conversions\n        if self in [QualParam.Concentration, QualParam.Quality,\n                    QualParam.LinkQuality, QualParam.ReactionRate]:\n            data = data / (",
+         new="        # Do conversions\n        if self in [QualParam.Concentration, QualParam.Quality,\n                    QualParam.LinkQuality, QualParam.ReactionRate]:\n            data = data / (", rule="R-C17-1d"),
     dict(name="psi-constant", file=UTIL, old="                data = data * (0.3048 / 0.4333)", new="                data = data * (0.3048 / 0.4335)", rule="R-C17-1"),
     dict(name="hp-constant-one-side", file=UTIL, old="                data = data / 745.699872  # hp from W", new="                data = data / 745.7  # hp from W", rule="R-C17-1b"),
     dict(name="imgd-moved-to-metric", file=UTIL, old="            FlowUnits.IMGD,\n            FlowUnits.AFD,\n        ]", new="            FlowUnits.AFD,\n        ]", rule="R-C17-2"),
